@@ -1,6 +1,6 @@
 """A3 — lock model.  Lock classes are *discovered* from the shape of the code:
 
-  acquire   with C: while K in L: C.wait() ; L.append(K)
+  acquire   with C: while K in L: C.wait() ; L.append(K)        (or  C.wait_for(lambda: K not in L) ; L.append(K))
   release   with C: L.remove(K) ; C.notify() / C.notify_all()
   try-claim with C: if K in L: raise X
 
@@ -198,6 +198,33 @@ def match_with(with_node: ast.With, func, sync: SyncTable, resolve=None):
     seen_remove = False
     for st in with_node.body:
         if is_logging_stmt(st):
+            continue
+        # `C.wait_for(lambda: K not in L)` is the wait loop `while K in L: C.wait()` (threading and multiprocessing conditions alike);
+        # with a timeout its result says whether the identifier is free: `if not C.wait_for(..., t): raise X` is a timed wait that
+        # gives up, a bare statement with a timeout goes on to claim an identifier that may still be claimed
+        wf_call, wf_raise = None, None
+        if isinstance(st, ast.Expr) and isinstance(st.value, ast.Call):
+            wf_call = st.value
+        elif isinstance(st, ast.If) and not st.orelse and isinstance(st.test, ast.UnaryOp) and isinstance(st.test.op, ast.Not) \
+                and isinstance(st.test.operand, ast.Call):
+            rest = [x for x in st.body if not is_logging_stmt(x)]
+            if len(rest) == 1 and isinstance(rest[0], ast.Raise):
+                wf_call, wf_raise = st.test.operand, rest[0]
+        if wf_call is not None and isinstance(wf_call.func, ast.Attribute) and wf_call.func.attr == "wait_for" and attrs(wf_call.func.value) \
+                and wf_call.args and isinstance(wf_call.args[0], ast.Lambda) and not wf_call.args[0].args.args:
+            mem = membership(wf_call.args[0].body)
+            timed = len(wf_call.args) > 1 or any(k.arg == "timeout" for k in wf_call.keywords)
+            if mem is None or not mem[2]:
+                op.anomalies.append(("foreign", "wait_for() predicate is not `K not in <claim list>`", st))
+            else:
+                op.wait_key, op.wait_list_set = mem[0], mem[1]
+                op.wait_cond_set = attrs(wf_call.func.value)
+                if op.wait_cond_set != cset:
+                    op.anomalies.append(("wait-other-cond", f"waits on self.{_name(op.wait_cond_set)} while holding self.{_name(cset)}", st))
+                if wf_raise is not None:
+                    op.wait_raises.append(wf_raise)
+                elif timed:
+                    op.anomalies.append(("no-wait", "timed wait_for() whose result is ignored: the claim is appended whether or not the identifier is free", st))
             continue
         if isinstance(st, ast.While):
             mem = membership(st.test)
